@@ -5,6 +5,9 @@ import json, subprocess, sys
 
 CLAIMED = {
  # id: (technique, level text, level note, design ref)
+ "C15": ("explicit-state search over all operation sequences on the real TablePage, merged on raw page bytes, against a slot map model",
+         "Every sequence of insert/update(grow, shrink, rollback flavour)/mark-delete/apply-delete/rollback-delete up to the depth bound, with row sizes from 1 byte to exactly-fills-the-page and one-too-big, is executed on the real slotted page; after every operation the raw 4096 bytes are compared with a slot->bytes model (row bytes, disjointness, bounds, free-space pointer, slot array, read path).",
+         "recovery-phase transaction (no lock manager), logging off; operations restricted to the call patterns TableHeap/Abort/recovery use; depth and slot-count bounds in the evidence file", "§4 C15"),
  "C16": ("explicit-state search of the complete reachable state space of the real LockManager (3 txns x 2 rows) + exhaustive schedule enumeration of 2-3 real goroutines under a controlled scheduler",
          "Every reachable state of the real lock manager for 3 transactions x 2 rows is visited with every request from it and compared with a holder-set model (not depth-bounded: the search stops when no new state appears); every interleaving of 2-3 goroutines x 2 requests is run on the real code and must equal a sequential order of the same calls.",
          "3 txns x 2 rows; transaction end through the real Commit/Abort with empty write sets; LockUpgrade only on rows held shared (caller contract); atomics are not scheduling points", "§4 C16"),
